@@ -47,7 +47,7 @@ def verif_key():
         for sub in ("pyvc", "contracts", "spec", "lemmas"):
             for dp, dn, fn in os.walk(os.path.join(VERIF, sub)):
                 for f in sorted(fn):
-                    if f.endswith((".py", ".json")) and f != "selftest.py":  # the self-test decides no unit
+                    if f.endswith((".py", ".json")) and f not in ("selftest.py", "__main__.py"):  # they decide no unit
                         files.append(os.path.join(dp, f))
         for f in sorted(files):
             h.update(os.path.relpath(f, VERIF).encode())
@@ -532,6 +532,8 @@ def check(prop, tier="quick", seed=0, procs=None, verbose=False):
         for c in crashes[:3]:
             print("CRASH in", c["unit"], "\n", c["trace"])
     if violations:
+        for u in undecided[:5]:
+            print("UNDECIDED: %s: %s" % (u["unit"], u["reason"]))
         return 1
     if n_obl <= 0 and not known_hits:
         print("ERROR: zero obligations generated for %s" % prop.id)
